@@ -815,3 +815,32 @@ def ob_inproc_internal_wake_during_slow_lookup(T: int, lat: int, x: int, z: int)
             bad.append(f"t={ab['at']}: released with workers={ab['workers_running']} timer pending={ab['wakeup_pending']}")
     _debug(f"slow lookup T={T} lat={lat} x={x} z={z}", bad)
     return not bad
+
+
+
+@obligation(quick=240, thorough=600, partitions_quick=[f"lat == {l} and land_first == {f}" for l in (1, 2) for f in (True, False)],
+            partitions_thorough=[f"lat == {l} and land_first == {f} and T == {t}" for l in (1, 2) for f in (True, False) for t in (2, 3)],
+            what="in-process stack over a store whose TICK-LOG appends take lat seconds (environment stub; the row lands before or after the "
+                 "wait): a run that wakes up by itself (a wait_for_event timeout x < idle_timeout) and then works z seconds — the release "
+                 "timer of the idle period it has just left falls due while the wake-up tick is still being persisted — is not aborted: it "
+                 "completes with its fallback result, and no release happens with a worker running or a timer pending",
+            bounds={"idle_timeout T": "2..3", "tick append latency": "1..2", "internal timeout x": "1..T-1", "work after the wake-up z": "1..2"})
+def ob_inproc_internal_wake_during_slow_tick_write(T: int, lat: int, x: int, z: int, land_first: bool) -> bool:
+    """
+    pre: 2 <= T <= 3 and 1 <= lat <= 2 and 1 <= z <= 2 and 1 <= x < T
+    post: _
+    """
+    T, lat, x, z = concrete(T, 2, 3), concrete(lat, 1, 2), concrete(x, 1, 2), concrete(z, 1, 2)
+    land_first = bool(land_first)
+    o = run_stack("inproc", T, [], lambda: TimerWF(kind=0, x=x, z=z, timeout=None), _mk_event, early=True, probe_to=0, settle=0,
+                  horizon=x + z + 12 * lat + T + 4, slow_write=(-2, lat, land_first))
+    bad: List[str] = []
+    if o["errors"] or o["loop_exceptions"]:
+        bad.append(f"errors {o['errors']} {o['loop_exceptions']}")
+    if o["status"] != "completed" or o["result"] != -1:
+        bad.append(f"final {o['status']}/{o['result']}, wanted completed/-1")
+    for ab in o["aborts"]:
+        if ab["was_running"] and not abort_state_is_quiescent(ab):
+            bad.append(f"t={ab['at']}: released with workers={ab['workers_running']} timer pending={ab['wakeup_pending']}")
+    _debug(f"slow tick write T={T} lat={lat} x={x} z={z} land_first={land_first}", bad)
+    return not bad
